@@ -8,6 +8,7 @@
 //! overwritten (hook H2) and the verdict of the real `MockProver::verify()` is printed instead.
 
 mod dump;
+mod foreign;
 mod native;
 
 use std::collections::BTreeMap;
@@ -93,6 +94,34 @@ fn main() {
             let pi: Vec<F> = rec.iter().map(|x| x.1).collect();
             let prover = MockProver::<F>::run(k, &circuit, vec![vec![], pi]).expect("synthesis (pass 2)");
             finish(prover, rec, replay, json!({"family": "native", "op": spec.op, "params": spec.params}));
+        }
+        "foreign" => {
+            use midnight_circuits::field::foreign::params::{FieldEmulationParams, MultiEmulationParams};
+            macro_rules! go {
+                ($K:ty) => {{
+                    let io = native::IoLog::default();
+                    let circuit = foreign::ForeignCircuit::<$K> { spec: spec.clone(), io: io.clone(), _k: std::marker::PhantomData };
+                    let _ = MockProver::<F>::run(k, &circuit, vec![vec![], vec![]]).expect("synthesis (pass 1)");
+                    let rec: Vec<(bool, F)> = io.0.borrow().clone();
+                    let pi: Vec<F> = rec.iter().map(|x| x.1).collect();
+                    let prover = MockProver::<F>::run(k, &circuit, vec![vec![], pi]).expect("synthesis (pass 2)");
+                    let moduli: Vec<String> = <MultiEmulationParams as FieldEmulationParams<F, $K>>::moduli().iter().map(|m| m.to_string()).collect();
+                    let extra = json!({"family": "foreign", "op": spec.op, "params": spec.params,
+                        "emulated_modulus": <$K as ff::PrimeField>::MODULUS,
+                        "log2_base": <MultiEmulationParams as FieldEmulationParams<F, $K>>::LOG2_BASE,
+                        "nb_limbs": <MultiEmulationParams as FieldEmulationParams<F, $K>>::NB_LIMBS,
+                        "moduli": moduli});
+                    finish(prover, rec, replay, extra);
+                }};
+            }
+            match spec.params.get("field").map(|s| s.as_str()).unwrap_or("k256fp") {
+                "k256fp" => go!(midnight_curves::k256::Fp),
+                "k256fq" => go!(midnight_curves::k256::Fq),
+                "blsfp" => go!(midnight_curves::Fp),
+                "c25519fp" => go!(midnight_curves::curve25519::Fp),
+                "c25519fq" => go!(midnight_curves::curve25519::Scalar),
+                f => panic!("unknown emulated field {f}"),
+            }
         }
         _ => panic!("unknown family {family}"),
     }
